@@ -886,6 +886,10 @@ def _comp_element(v):
     np.array / list - return (element expression in terms of the base list's iteration element, base list)."""
     if isinstance(v, tuple) and v and v[0] == "call" and str(v[1]) in ("numpy.array", "numpy.asarray", "list") and len(v[2]) == 1:
         return _comp_element(v[2][0])
+    if isinstance(v, tuple) and v and v[0] == "ifexp" and len(v) == 4:
+        # `rows if <list non-empty> else <empty array>`: the branch that carries rows decides
+        cands = [c for c in (_comp_element(v[2]), _comp_element(v[3])) if c is not None]
+        return cands[0] if len(cands) == 1 else None
     if isinstance(v, tuple) and v and v[0] == "listcomp":
         elt, gens = v[1], v[2]
         if len(gens) != 1 or gens[0][1]:
@@ -944,7 +948,9 @@ def rule_polytope_roundtrip(ctx: Ctx, rule: str = "matrix-roundtrip") -> None:
                             why = "appended value is %s" % show(arg, 3)
                 if not found and okc:
                     # the empty-context branch returns np.array([[]]) for element 3: fine when no row was appended
-                    if not (i == 3 and any("len(context.terms) == 0" in t and c for (t, c) in p.decisions)):
+                    empty_literal = isinstance(el, tuple) and el and el[0] == "call" and str(el[1]).endswith("array") and len(el[2]) == 1 and not mentions(el[2][0], lambda y: isinstance(y, tuple) and y and y[0] in ("param", "iter", "call", "mcall"))
+                    tested_empty = any(e["kind"] == "branch" and mentions(e["test"], lambda y: y == ("attr", ("param", src), "terms")) for e in p.events)
+                    if not (i == 3 and empty_literal and tested_empty):
                         okc = False
                         why = "no row of '%s' flows into it (%s)" % (src, show(el, 3))
             if okc:
@@ -1942,6 +1948,10 @@ def rule_reduce_loop_discipline(ctx: Ctx, rule: str = "reduce-loop") -> None:
                 d = _delta_from_start(p.env[nm])
                 if d is not None:
                     count_moves = d
+            if count_moves is None and _live_count_arrays(fi):
+                # `while i < a_temp.shape[0]` / `len(b_temp)`: the bound is read off the array that rows are deleted
+                # from, so it shrinks exactly when a row is removed
+                count_moves = Fraction(-1) if deleted else Fraction(0)
             if pos_moves is None or count_moves is None:
                 ctx.cannot_decide(rule, key, "loop counters", "could not follow the position / row-count variables")
                 continue
@@ -1977,6 +1987,27 @@ def _count_names(fi: FuncInfo) -> Set[str]:
                 if isinstance(e, ast.Name):
                     out.add(e.id)
     return out - _position_names(fi)
+
+
+def _live_count_arrays(fi: FuncInfo) -> Set[str]:
+    """Arrays whose current row count bounds the loop ( while i < X.shape[0] / len(X) ) and that are re-bound to
+    np.delete(X, ...) in the function."""
+    out: Set[str] = set()
+    for node in ast.walk(fi.node):
+        if isinstance(node, ast.While) and isinstance(node.test, ast.Compare):
+            for e in [node.test.left] + list(node.test.comparators):
+                nm = None
+                if isinstance(e, ast.Subscript) and isinstance(e.value, ast.Attribute) and e.value.attr == "shape" and isinstance(e.value.value, ast.Name) and norm(e.slice) == "0":
+                    nm = e.value.value.id
+                if isinstance(e, ast.Call) and isinstance(e.func, ast.Name) and e.func.id == "len" and len(e.args) == 1 and isinstance(e.args[0], ast.Name):
+                    nm = e.args[0].id
+                if nm is not None:
+                    out.add(nm)
+    rebound = set()
+    for node in ast.walk(fi.node):
+        if isinstance(node, ast.Assign) and len(node.targets) == 1 and isinstance(node.targets[0], ast.Name) and isinstance(node.value, ast.Call) and norm(node.value.func).endswith("delete") and node.value.args and isinstance(node.value.args[0], ast.Name) and node.value.args[0].id == node.targets[0].id:
+            rebound.add(node.targets[0].id)
+    return out & rebound
 
 
 def _delta_from_start(v) -> Optional[Fraction]:
